@@ -92,16 +92,16 @@ type Ctx struct {
 
 // Step is one operation of a task program.
 type Step struct {
-	Op     string `json:"op"`
-	Ctx    int    `json:"ctx"`
-	D      string `json:"d,omitempty"` // destination ref: "r<i>"
-	X      string `json:"x,omitempty"` // operand refs: "r<i>" private, "s<i>" shared
-	Y      string `json:"y,omitempty"`
-	I      string `json:"i,omitempty"` // Modf integ ref ("" = nil)
-	F      string `json:"f,omitempty"` // Modf frac ref ("" = nil)
-	N      int64  `json:"n,omitempty"` // integer argument (exponent, precision, int64 value)
-	S      string `json:"s,omitempty"` // string argument
-	Poison string `json:"poison,omitempty"`
+	Op     string  `json:"op"`
+	Ctx    int     `json:"ctx"`
+	D      string  `json:"d,omitempty"` // destination ref: "r<i>"
+	X      string  `json:"x,omitempty"` // operand refs: "r<i>" private, "s<i>" shared
+	Y      string  `json:"y,omitempty"`
+	I      string  `json:"i,omitempty"` // Modf integ ref ("" = nil)
+	F      string  `json:"f,omitempty"` // Modf frac ref ("" = nil)
+	N      int64   `json:"n,omitempty"` // integer argument (exponent, precision, int64 value)
+	S      string  `json:"s,omitempty"` // string argument
+	Poison string  `json:"poison,omitempty"`
 	Traps  *uint32 `json:"traps,omitempty"` // per-step trap set (C03)
 }
 
@@ -125,17 +125,17 @@ type Task struct {
 
 // BigStep is one operation of the BigInt register machine (C16).
 type BigStep struct {
-	Op  string `json:"op"`
-	Z   int    `json:"z"`            // receiver register (-1 = nil receiver where allowed)
-	X   int    `json:"x,omitempty"`  // argument registers (-1 = nil)
-	Y   int    `json:"y,omitempty"`
-	M   int    `json:"m,omitempty"`
-	W   int    `json:"w,omitempty"`
-	N   int64  `json:"n,omitempty"`  // integer argument
-	K   int64  `json:"k,omitempty"`  // second integer argument
-	S   string `json:"s,omitempty"`  // text / bytes (hex for byte args)
-	F   string `json:"f,omitempty"`  // fault kind for stream/bytes steps
-	FK  int    `json:"fk,omitempty"` // fault position
+	Op string `json:"op"`
+	Z  int    `json:"z"`           // receiver register (-1 = nil receiver where allowed)
+	X  int    `json:"x,omitempty"` // argument registers (-1 = nil)
+	Y  int    `json:"y,omitempty"`
+	M  int    `json:"m,omitempty"`
+	W  int    `json:"w,omitempty"`
+	N  int64  `json:"n,omitempty"`  // integer argument
+	K  int64  `json:"k,omitempty"`  // second integer argument
+	S  string `json:"s,omitempty"`  // text / bytes (hex for byte args)
+	F  string `json:"f,omitempty"`  // fault kind for stream/bytes steps
+	FK int    `json:"fk,omitempty"` // fault position
 }
 
 // BigReg seeds a BigInt register.
@@ -154,6 +154,7 @@ type Plan struct {
 	Run      uint64            `json:"run"`
 	Knobs    map[string]string `json:"knobs,omitempty"`
 	Race     bool              `json:"race,omitempty"`
+	Cold     bool              `json:"cold,omitempty"` // C18: concurrent phase first (cold process state), solo baselines afterwards
 	Contexts []Ctx             `json:"contexts,omitempty"`
 	Shared   []Dec             `json:"shared,omitempty"`
 	Tasks    []Task            `json:"tasks,omitempty"`
